@@ -178,13 +178,19 @@ class _ExactLanguageSearch:
             to_parse = original
 
         parser = DateDataParser(languages=languages, settings=settings)
-        parsed, substrings = self.parse_found_objects(
-            parser=parser,
-            to_parse=to_parse,
-            original=original,
-            translated=translated,
-            settings=settings,
-        )
+        relative_base = settings.RELATIVE_BASE
+        try:
+            parsed, substrings = self.parse_found_objects(
+                parser=parser,
+                to_parse=to_parse,
+                original=original,
+                translated=translated,
+                settings=settings,
+            )
+        finally:
+            # parse_item() points RELATIVE_BASE at dates found earlier in the text;
+            # the settings object is shared with every parser built from equal settings
+            settings.RELATIVE_BASE = relative_base
         parser._settings = Settings()
         return [
             (substring, item[0]["date_obj"])
